@@ -68,7 +68,7 @@ TReturned == /\ l <= N /\ Ev.ev = "returned" /\ Consume /\ UNCHANGED vars
              /\ mon' = [mon EXCEPT !.returned = TRUE,
                                    !.early = mon.live # {},
                                    !.unsig = ~mon.signalled]
-\* after the interrupt, with sessions in flight, the harness connects again and again until it is refused (i = 1) or gives up after 4 s
+\* after the interrupt, with sessions in flight, the harness connects again and again until it is refused (i = 1) or gives up after 10 s
 \* (i = 0): in the design `Arrive` is disabled once the loop has been left -- the listener is dropped before the wait, not after it
 TPort == /\ l <= N /\ Ev.ev = "port" /\ Consume /\ UNCHANGED vars /\ mon' = [mon EXCEPT !.open = (Ev.i = 0)]
 \* informational events
